@@ -81,4 +81,36 @@ example : (fileOpen 2 [9, 9, 9] 3).file = [9, 9, 9, 0, 0, 0] := by decide
 example : (fileOpen 2 [1, 2, 3, 4, 5, 6, 7] 2).file = [1, 2, 3, 4] := by decide
 example : fileBlocks 2 (fileOpen 2 [1, 2, 3] 3) = [[1, 2], [3, 0], [0, 0]] := by decide
 
+/-! ### short transfers are never a success (repair 256b1fc)
+
+`pread` may hand over fewer bytes than asked for without an error.  Whatever positive number of bytes each call hands
+over (`ks`: one limit per call), the loop of `ReadTo` returns exactly the block when the image holds it, and never returns
+normally when the block lies partly or wholly beyond the end of the image (an image somebody truncated while the disk was
+open): the call that transfers nothing panics.  Before the repair the byte count was ignored: the correspondence check
+(`extrunc`, `fsize` scenarios of pylib/c11.py) observed a normal return with a partly stale buffer. -/
+
+theorem short_reads_are_completed (file : Bytes) (off len : Nat) (ks : List Nat)
+    (hfile : off + len ≤ file.length) (hk : len ≤ ks.length) :
+    readLoop file off len ks [] = some (pread file off len) := by
+  have := readLoop_complete file off len ks 0 hfile (Nat.zero_le _) (by omega)
+  simpa [pread] using this
+
+theorem read_beyond_the_end_never_succeeds (file : Bytes) (off len : Nat) (ks : List Nat)
+    (hoff : off ≤ file.length) (hfile : file.length < off + len) :
+    readLoop file off len ks [] = none :=
+  readLoop_short_file file off len ks [] hfile (by simpa using hoff)
+
+/-- … and in the model of `ReadTo` itself: a block that the image does not hold completely is refused. -/
+theorem readTo_refuses_incomplete_block (d : FileSt) (a : Nat) (buf : Bytes) (hb : buf.length = BS) (ha : a < d.numBlocks)
+    (hshort : d.file.length < a * BS + BS) : (fileImpl BS).readTo d a buf = none := by
+  simp only [fileImpl, hb, ne_eq, not_true_eq_false, ↓reduceIte]
+  rw [if_neg (by omega), if_pos]
+  rw [pread_length]
+  have hbs : 0 < BS := by decide
+  have : d.file.length - a * BS < BS := by omega
+  exact Nat.lt_of_le_of_lt (Nat.min_le_right _ _) this
+
+example : readLoop [1, 2, 3, 4, 5, 6, 7, 8] 2 5 [0, 1, 0, 3, 9] [] = some [3, 4, 5, 6, 7] := by decide
+example : readLoop [1, 2, 3, 4] 2 5 [0, 1, 0, 3, 9] [] = none := by decide
+
 end GooseVerif.Props.C11
